@@ -1,4 +1,138 @@
-import Crs.Update
+/-
+  C16 — failures are loud: non-zero exit, no regex printed, no target file modified.
+
+  Model: `Crs.Cli` single-target commands (`generateCmd`, `updateCmd`, `formatOne`, `renumberOne`) and the --all
+  walks. Faults are values in the model (`Except Fault`): every way the code can fail to do what was asked — missing
+  include, entry that does not compile, unknown processor, unbalanced markers, unknown stored name, unsupported flag,
+  odd replacement list, rule / chain offset / rules file not found or ambiguous — is an `.error` of `generate`,
+  `parseRuleId`, `rulesFileOf`, `updateRegex` or `formatFile`, and the theorems below say what an `.error` turns into.
+  The correspondence check (K10) compares stdout, exit status and the whole tree of the real binary with the model
+  under every injected fault class.
+  Known finding D19: the --all walks are not atomic (`C16_updateAll_failure_prefix_D19` states what is left).
+-/
+import Crs.Cli
 namespace Crs.Props
-theorem C16_placeholder : True := trivial
+open Crs Crs.Cli Crs.Format
+
+/-- **C16 (generate).** A failing generate prints nothing; a successful one prints exactly the regex (no newline).
+    The tree is untouched either way. -/
+theorem C16_generate_loud (E : Asm.Engine) (cfg : Asm.Config) (o1 o2 : Parser.Ord) (t : Tree) (arg : Bytes) :
+    let r := generateCmd E cfg o1 o2 t arg
+    r.tree = t ∧ (r.ok = false → r.stdout = []) ∧
+    (r.ok = true → ∃ ra b re, Update.parseRuleId arg = .ok ra ∧ lookup (assemblyPath ra.fileName) t = some b ∧
+        Asm.generate E (fsOf t) cfg o1 o2 b = .ok re ∧ r.stdout = re) := by
+  simp only [generateCmd]
+  split
+  · simp
+  · rename_i ra hra
+    split
+    · simp
+    · rename_i b hb
+      split
+      · rename_i re hre
+        refine ⟨rfl, by simp, fun _ => ⟨ra, b, re, hra, hb, ?_, rfl⟩⟩
+        exact hre
+      · simp
+
+/-- **C16 (update).** A failing update leaves every file byte-identical and prints nothing; exit status 0 means the
+    operand of the addressed rule was written. -/
+theorem C16_update_loud (E : Asm.Engine) (cfg : Asm.Config) (o1 o2 : Parser.Ord) (t : Tree) (arg : Bytes) :
+    let r := updateCmd E cfg o1 o2 t arg
+    r.stdout = [] ∧ (r.ok = false → r.tree = t) ∧
+    (r.ok = true → ∃ ra b re rp rc rc', Update.parseRuleId arg = .ok ra ∧ lookup (assemblyPath ra.fileName) t = some b ∧
+        Asm.generate E (fsOf t) cfg o1 o2 b = .ok re ∧ rulesFileOf t ra.id = some rp ∧ lookup rp t = some rc ∧
+        Update.updateRegex rc ra.id ra.chainOffset re = .ok rc' ∧ r.tree = setFile rp rc' t) := by
+  simp only [updateCmd]
+  split
+  · simp
+  · rename_i ra hra
+    split
+    · simp
+    · rename_i b hb
+      split
+      · rename_i t' ht'
+        refine ⟨rfl, by simp, fun _ => ?_⟩
+        unfold updateRule at ht'
+        simp only at ht'
+        split at ht'
+        · simp at ht'
+        · rename_i re hre
+          split at ht'
+          · simp at ht'
+          · rename_i rp hrp
+            split at ht'
+            · simp at ht'
+            · rename_i rc hrc
+              split at ht'
+              · simp at ht'
+              · rename_i rc' hrc'
+                simp only [Except.ok.injEq] at ht'
+                exact ⟨ra, b, re, rp, rc, rc', hra, hb, hre, hrp, hrc, hrc', ht'.symm⟩
+      · simp
+
+/-- **C16 (format, one file).** A file that cannot be formatted is left as it is and reported. -/
+theorem C16_format_failure_keeps_file (check lint : Bool) (b b' : Bytes) (h : formatOne check lint b = (b', false)) : b' = b := by
+  unfold formatOne at h
+  split at h
+  · simp only [Prod.mk.injEq] at h; exact h.1.symm
+  · split at h
+    · simp only [Prod.mk.injEq] at h; exact h.1.symm
+    · simp at h
+
+/-- **C16 (renumber-tests, one file).** Failure (check mode on a misnumbered file) leaves the file as it is. -/
+theorem C16_renumber_failure_keeps_file (check : Bool) (id b b' : Bytes) (h : renumberOne check id b = (b', false)) : b' = b := by
+  unfold renumberOne at h
+  simp only at h
+  split at h
+  · simp at h
+  · split at h
+    · simp only [Prod.mk.injEq] at h; exact h.1.symm
+    · simp at h
+
+/-- **C16 (format --all reports every failure).** Exit status 0 of `format --all` means every target was written in
+    its formatted form (or, with --check, already had it and passes the lint). -/
+theorem C16_formatAll_ok (check : Bool) (lint : Bytes → Bool) (t : Tree) (h : (formatAll check lint t).ok = true) :
+    ∀ pb ∈ t, isFormatTarget pb.1 = true → parseable pb.2 = true ∧ (formatOne check (lint pb.1) pb.2).2 = true := by
+  induction t with
+  | nil => simp
+  | cons x rest ih =>
+    obtain ⟨p, b⟩ := x
+    simp only [formatAll] at h
+    intro pb hpb htgt
+    by_cases ht : isFormatTarget p = true
+    · simp only [ht, if_true] at h
+      by_cases hp : parseable b = true
+      · simp only [hp, Bool.not_true, Bool.false_eq_true, if_false, Bool.and_eq_true] at h
+        simp only [List.mem_cons] at hpb
+        rcases hpb with rfl | hpb
+        · exact ⟨hp, h.1⟩
+        · exact ih h.2 pb hpb htgt
+      · have hp' : parseable b = false := by simpa using hp
+        simp [hp'] at h
+    · have ht' : isFormatTarget p = false := by simpa using ht
+      simp only [ht', Bool.false_eq_true, if_false] at h
+      simp only [List.mem_cons] at hpb
+      rcases hpb with rfl | hpb
+      · rw [ht'] at htgt; exact absurd htgt (by simp)
+      · exact ih h pb hpb htgt
+
+/-- **D19 as a fact of the model.** When the second of two assembly files fails in `update --all`, the run reports
+    failure and the tree is the one the FIRST update produced — not the original tree: loud, but not atomic.
+    (That such runs exist with `t' ≠ t` is the executable witness of D19 in known_findings.jsonl, on which model and
+    binary agree.) -/
+theorem C16_updateAll_failure_prefix_D19 (E : Asm.Engine) (cfg : Asm.Config) (o1 o2 : Parser.Ord) (g g' : Globals) (t t' : Tree)
+    (p1 b1 p2 b2 id1 id2 : Bytes) (k1 k2 : Nat) (e : Fault)
+    (ht1 : isFormatTarget p1 = true) (hn1 : ruleOfFileName (baseName p1) = some (some (id1, k1)))
+    (ht2 : isFormatTarget p2 = true) (hn2 : ruleOfFileName (baseName p2) = some (some (id2, k2)))
+    (hu1 : updateRule E cfg o1 o2 g t b1 id1 k1 = (g', .ok t'))
+    (hu2 : (updateRule E cfg o1 o2 g' t' b2 id2 k2).2 = .error e) :
+    updateAll E cfg o1 o2 g t [(p1, b1), (p2, b2)] = ⟨t', false⟩ := by
+  simp only [updateAll, ht1, ht2, hn1, hn2, if_true, hu1]
+  cases hx : updateRule E cfg o1 o2 g' t' b2 id2 k2 with
+  | mk gg r =>
+    rw [hx] at hu2
+    simp only at hu2
+    subst hu2
+    rfl
+
 end Crs.Props
